@@ -141,7 +141,7 @@ def metamorphic_real_schedulers(rep, bhvs, seed):
                 {"kind": "case", "module": "props_sched", "fn": "replay_case",
                  "case": {"start": job[0], "kws": job[1], "seed": job[2], "algo": job[3]}, "mismatch": d})
         else:
-            rep.foreign_divergence(d["owner"])
+            rep.foreign_divergence(d["owner"], {"divergence": d, "case": {"start": job[0], "kws": job[1], "seed": job[2], "algo": job[3]}})
     rep.notes.append("%d scenarios run under the real UncontrolledCharging / SortedSchedulingAlgo (FCFS, LCFS, EDF on "
                      "finite-rate EVSEs, only where simultaneously connected sessions have distinct keys), each under 7 "
                      "variations" % n)
